@@ -133,54 +133,57 @@ pub fn run_aiter(w: &[&str]) -> String {
     impl std::fmt::Display for KV { fn fmt(&self, f: &mut std::fmt::Formatter) -> std::fmt::Result { write!(f, "{}={}", self.0, self.1) } }
     // drive an iterator of results through the adaptor (a) and through plain next() calls (b); stop after an error
     // (an iterator over an indefinite container may keep answering with errors) and after 4096 items
-    fn through<I: Iterator<Item = String>>(mut it: I, ad: &str, n: usize, reference: bool) -> Option<Vec<String>> {
+    fn through<T, I: Iterator<Item = Result<T, minicbor::decode::Error>>>(mut it: I, f: fn(Result<T, minicbor::decode::Error>) -> String, ad: &str, n: usize, reference: bool) -> Option<Vec<String>> {
+        // the adaptor is applied to the library's iterator itself (an `nth` / `size_hint` / `fold` it overrides is what runs)
         let cap = 4096;
         let mut out = Vec::new();
         macro_rules! push { ($x:expr) => {{ let x: String = $x; let stop = x.starts_with("E:"); out.push(x); if stop || out.len() >= cap { return Some(out) } }} }
         match (ad, reference) {
-            ("all", _) => { while let Some(x) = it.next() { push!(x) } }
-            ("nth", false) => { match it.nth(n) { Some(x) => push!(x), None => out.push("none".into()) } while let Some(x) = it.next() { push!(x) } }
+            ("all", _) => { while let Some(x) = it.next() { push!(f(x)) } }
+            ("nth", false) => { match it.nth(n) { Some(x) => push!(f(x)), None => out.push("none".into()) } while let Some(x) = it.next() { push!(f(x)) } }
             ("nth", true) => {
                 // n items are consumed and dropped whatever they are (errors included), the next one is the answer
                 let mut last = None;
                 for _ in 0 ..= n { last = it.next(); if last.is_none() { break } }
-                match last { Some(x) => push!(x), None => out.push("none".into()) }
-                while let Some(x) = it.next() { push!(x) }
+                match last { Some(x) => push!(f(x)), None => out.push("none".into()) }
+                while let Some(x) = it.next() { push!(f(x)) }
             }
-            ("skip", false) => { for x in it.skip(n) { push!(x) } }
+            ("skip", false) => { for x in it.skip(n) { push!(f(x)) } }
             ("skip", true) => {
                 for _ in 0 .. n { if it.next().is_none() { return Some(out) } }
-                while let Some(x) = it.next() { push!(x) }
+                while let Some(x) = it.next() { push!(f(x)) }
             }
-            ("step", false) => { if n == 0 { return None } for x in it.step_by(n) { push!(x) } }
+            ("step", false) => { if n == 0 { return None } for x in it.step_by(n) { push!(f(x)) } }
             ("step", true) => {
                 if n == 0 { return None }
                 let mut i = 0usize;
-                while let Some(x) = it.next() { if i % n == 0 { push!(x) } i += 1; if i > 1 << 20 { break } }
+                while let Some(x) = it.next() { if i % n == 0 { push!(f(x)) } i += 1; if i > 1 << 20 { break } }
             }
-            ("take", false) => { for x in it.by_ref().take(n) { push!(x) } out.push("|".into()); while let Some(x) = it.next() { push!(x) } }
-            ("take", true) => { for _ in 0 .. n { match it.next() { Some(x) => push!(x), None => break } } out.push("|".into()); while let Some(x) = it.next() { push!(x) } }
-            ("last", false) => { match it.last() { Some(x) => out.push(x), None => out.push("none".into()) } }
-            ("last", true) => { let mut l = None; while let Some(x) = it.next() { let e = x.starts_with("E:"); l = Some(x); if e { break } } out.push(l.unwrap_or("none".into())) }
+            ("take", false) => { for x in it.by_ref().take(n) { push!(f(x)) } out.push("|".into()); while let Some(x) = it.next() { push!(f(x)) } }
+            ("take", true) => { for _ in 0 .. n { match it.next() { Some(x) => push!(f(x)), None => break } } out.push("|".into()); while let Some(x) = it.next() { push!(f(x)) } }
+            ("last", false) => { match it.last() { Some(x) => out.push(f(x)), None => out.push("none".into()) } }
+            ("last", true) => { let mut l = None; while let Some(x) = it.next() { l = Some(x) } out.push(l.map(f).unwrap_or("none".into())) }
             ("count", false) => { out.push(it.count().to_string()) }
-            ("count", true) => { let mut c = 0usize; while let Some(x) = it.next() { c += 1; if x.starts_with("E:") || c >= cap { break } } out.push(c.to_string()) }
+            ("count", true) => { let mut c = 0usize; while let Some(_) = it.next() { c += 1; if c >= 1 << 20 { break } } out.push(c.to_string()) }
+            ("hint", _) => { let h = it.size_hint(); out.push(format!("{}..{}", h.0, h.1.map(|x| x.to_string()).unwrap_or("inf".into()))); let mut c = 0usize; while let Some(x) = it.next() { c += 1; if x.is_err() { break } } out.push(c.to_string()) }
             _ => return None
         }
         Some(out)
     }
+    fn kv(r: Result<(u8, u8), minicbor::decode::Error>) -> String { item(r.map(|(k, v)| KV(k, v))) }
     let mut res = Vec::new();
     for reference in [false, true] {
         let mut d = Decoder::new(&input);
         let tr = match w[0] {
             "array" => match d.array_iter::<u8>() {
-                Ok(it) => through(it.map(item), ad, arg, reference),
+                Ok(it) => through(it, item::<u8>, ad, arg, reference),
                 Err(e) => Some(vec![format!("open:E:{}", dclass(&e))])
             },
             "arrayc" => { let mut ctx = (); match d.array_iter_with::<(), u8>(&mut ctx) {
-                Ok(it) => through(it.map(item), ad, arg, reference),
+                Ok(it) => through(it, item::<u8>, ad, arg, reference),
                 Err(e) => Some(vec![format!("open:E:{}", dclass(&e))]) } }
             "map" => match d.map_iter::<u8, u8>() {
-                Ok(it) => through(it.map(|r| item(r.map(|(k, v)| KV(k, v)))), ad, arg, reference),
+                Ok(it) => through(it, kv, ad, arg, reference),
                 Err(e) => Some(vec![format!("open:E:{}", dclass(&e))])
             },
             _ => None
